@@ -6,7 +6,7 @@ class PointerError(Exception):
     pass
 
 
-_INDEX = re.compile(r"^(0|[1-9][0-9]*)$", re.ASCII)
+_INDEX = re.compile(r"(0|[1-9][0-9]*)\Z", re.ASCII)      # \Z, not $: "1\n" is not an index
 _HEX = "0123456789abcdefABCDEF"
 
 
